@@ -223,6 +223,8 @@ class _Scalar(T):
         return [self.sort]
 
     def flat(self, v):
+        if isinstance(v, Opt):
+            v = v.val
         return [self.coerce(v)]
 
     def unflat(self, terms):
@@ -271,6 +273,8 @@ class TTuple(T):
         return [s for t in self.ts for s in t.sorts()]
 
     def flat(self, v):
+        if isinstance(v, Opt):
+            v = v.val
         if not isinstance(v, (tuple, list)) or len(v) != len(self.ts):
             raise Unsupported(f"expected {len(self.ts)}-tuple, got {v!r}")
         return [x for t, e in zip(self.ts, v) for x in t.flat(e)]
